@@ -263,6 +263,37 @@ _amend("C12", "text", "PARTIAL: `_,X`, optionals and `&` vs variables are decide
        "(Props/C12Parse.spec_env_expands, over the parser port, which is compared with Parser::parse on ~40k lines per run). PARTIAL: that the interpreter then treats the two "
        "environments as it treats the typed-out pair, optionals and `&` vs variables are decided by c12-spec")
 
+# ---- session 3, part 2: D2 repaired, alias lexer/parser ported, parser error spans
+_amend("C02", "text", "so a line is parsed, rejected, or hits one of the modelled panic sites (numbers above usize::MAX = known finding D2, the "
+       "unreachable!() after an empty term = D30); the word parser:",
+       "so a line is parsed, rejected, or hits one of the modelled panic sites (the unreachable!() after an empty term = known finding D30; the index panics are not known "
+       "to be reachable). The former D2 family (18 panics on numbers above usize::MAX) was REPAIRED in the lexers (two fix: commits) and the repair is PROVED for lexer + "
+       "parser on every line (Props/C02Numbers.parseLine_no_number_panic: the lexer hands over only Number tokens below 2^64, Lex.lexLine_numbers_fit, and the parser only "
+       "parses the digits of the token under its cursor). The ALIAS lexer and parser are ported too (Model/AliasLexer, AliasParser; aliasp-ops: transformations, error "
+       "variants and spans, panics compared on ~40k romaniser/deromaniser lines per run) with the same theorems: AliasLexer::get_line returns a token list or an "
+       "AliasSyntaxError on EVERY line, escapes included (Props/C02ALex), and every loop of AliasParser::parse ends on every token list (Props/C02AParse); the word parser:")
+_amend("C02", "note", "the alias lexer and parser are not ported (their totality rests on the search only);",
+       "for the alias parser too only termination is proved (a feature with an alpha value reaches its unreachable!(): known finding D31);")
+_amend("C02", "technique", "rule lexer and word parser return on every text; rule parser terminates on every token list)",
+       "rule lexer, alias lexer and word parser return on every text; rule and alias parsers terminate on every token list; no number-parse panic)")
+_amend("C17", "text", "For the rule PARSER (ported, its error spans compared with the implementation's on ~40k lines per run, parse-ops) the 24 error variants that carry a TOKEN and the 3 "
+       "that carry a column are proved well placed on every line (Props/C17Parse.parseLine_error_spans, parser_error_formats): the token is always the parser's current token, "
+       "which is a token of the lexer's list or the Eol the parser makes up after a comment - whose position is the token INDEX (the two units the property text mentions), still "
+       "inside [0, len+1] because a line of len characters has at most len+1 tokens and the cursor stays inside the list until the final Eol is consumed. "
+       "PARTIAL: the 9 variants that underline an ITEM (OptLocError, WordBoundLoc, EmptySet, UnexpectedDiacritic, DiacriticDoesNotMeetPreReqs*, the word-boundary errors) and all "
+       "interpreter errors are not covered by a theorem (item positions are not tracked by the invariant); they are decided by the c17-spec search:",
+       "For the rule PARSER (ported, its error spans compared with the implementation's on ~40k lines per run, parse-ops) 35 of the 36 RuleSyntaxError variants of lexer + parser "
+       "are proved well placed on EVERY line (Props/C17Parse.parseLine_error_spans; parser_error_formats and parser_two_span_error_formats compose it with the formatter "
+       "theorems): the 24 that carry a token and the 3 that carry a column underline the parser's current token, which is a token of the lexer's list or the Eol the parser "
+       "makes up after a comment - whose position is the token INDEX (the two units the property text mentions), still inside [0, len+1] because a line of len characters has "
+       "at most len+1 tokens and the cursor stays inside the list until the final Eol is consumed; WordBoundLoc and the three word-boundary errors underline a `#` token; "
+       "EmptySet and OptLocError underline from the opening bracket to the last token consumed (ordered because the lexer's tokens are); the two DiacriticDoesNotMeetPreReqs "
+       "errors underline the segment's token and then the diacritic's, in the order the formatter's subtraction needs. The alias lexer's tokens and errors are proved to lie "
+       "inside the line as well (Props/C02ALex). PARTIAL: UnexpectedDiacritic (underlines the last ITEM of a term; item positions are not tracked by the invariant), the alias "
+       "parser's errors and all interpreter errors are not covered by a theorem; they are decided by the c17-spec search and the parse-ops / aliasp-ops comparison of spans:")
+_amend("C13", "text", "Proved over the port of the rule lexer", "The alias lexer (which duplicates the feature table) is ported as well and compared on ~40k lines per run (aliasp-ops). "
+       "Proved over the port of the rule lexer")
+
 
 def main():
     checks = []
